@@ -42,17 +42,70 @@ TECHNIQUE = "history monitor: recorded read/construct histories on shared argume
 DESIGN_REF = "DESIGN.md 4 C18; 2.4(d)(e)"
 REQUIRED_REACH = {
     "quick": ["history_read", "reread", "construct_shared", "envelope_equivalence", "thread_read",
-              "class:mutated_response", "class:set_and_single_cubes", "class:mode=cube",
+              "contract_dimension_dict_prepared",
+              "class:mutated_response", "class:set_and_single_cubes",
+              "class:same_transforms_other_survey", "class:mode=cube",
               "class:mode=cubeset_tabbook", "class:mode=cubeset_ca0",
               "class:mode=cubeset_numsum", "class:mode=cubeset_filtercols", "class:3d",
               "class:means_pairwise_defined",
               "class:corpus"],
     "thorough": ["history_read", "reread", "construct_shared", "envelope_equivalence",
-                 "thread_read", "class:mutated_response", "class:set_and_single_cubes",
+                 "thread_read", "contract_dimension_dict_prepared", "class:mutated_response",
+                 "class:set_and_single_cubes",
                  "class:means_pairwise_defined", "class:corpus"],
 }
 BATCH = 12
 UNIT_TIMEOUT_S = 90
+
+
+_contract = {"evals": 0, "violations": []}
+
+
+def setup_worker():
+    """Runtime contract (recording, never raising) on the function that prepares a dimension
+    dict shared by every Dimension built over it: when it returns for an array-type dimension
+    every element carries its alias, for a datetime dimension every valid element its value.
+    A reader that returns early while another thread is still filling the dict in violates it
+    at that moment, whether or not a wrong number follows (invariant at a hook)."""
+    try:
+        import cr.cube.dimension as D
+        from cr.cube.enums import DIMENSION_TYPE as DT
+        from cr.cube.util import lazyproperty
+
+        orig = D._ElementIdShim.__dict__["shimmed_dimension_dict"]._fget
+
+        def shimmed_dimension_dict(self):
+            out = orig(self)
+            _contract["evals"] += 1
+            try:
+                els = out["type"].get("elements") or []
+                if self.dimension_type in DT.ARRAY_TYPES:
+                    bad = [k for k, e in enumerate(els) if "subvar_alias" not in e]
+                elif self.dimension_type == DT.DATETIME:
+                    bad = [k for k, e in enumerate(els) if not isinstance(e.get("value"), dict)
+                           and "datetime_value" not in e]
+                else:
+                    bad = []
+                if bad:
+                    _contract["violations"].append(
+                        {"dimension_type": self.dimension_type.name, "elements": len(els),
+                         "unprepared_elements": bad[:8],
+                         "thread": threading.current_thread().name})
+            except Exception as e:  # a contract must not disturb the workload
+                _contract["violations"].append({"why": "contract error %r" % e})
+            return out
+
+        shimmed_dimension_dict.__doc__ = orig.__doc__
+        D._ElementIdShim.shimmed_dimension_dict = lazyproperty(shimmed_dimension_dict)
+        _contract["installed"] = True
+    except Exception as e:
+        _contract["installed"] = False
+        _contract["error"] = repr(e)
+
+
+def worker_extra():
+    return {"contract_installed": _contract.get("installed"),
+            "contract_evaluations": _contract["evals"], "error": _contract.get("error")}
 
 
 def units(tier, seed):
@@ -160,9 +213,17 @@ def make_case(unit):
                 if role == "mr":
                     _derive_items(g, v)
         tr = {}
-        if g.chance(0.8 if template in ("cat", "cat_date", "cat|cat", "cat|cat_date")
-                    else 0.5):
-            cases.attach_insertions(g, facets, tr)
+        cat_rows = template in ("cat", "cat_date", "cat|cat", "cat|cat_date", "cat|mr",
+                                "cat|datetime", "cat|mrd")
+        if g.chance(0.8 if cat_rows else 0.5):
+            if cat_rows and g.chance(0.6):
+                # insertions given in the analysis, mostly without ids (the library numbers
+                # them itself) - on a transforms object that another survey will share
+                cases.attach_insertions(g, facets, tr, placement="transform",
+                                        with_ids=g.pick(["none", "none", "mixed"]),
+                                        n=g.r.randint(2, 4))
+            else:
+                cases.attach_insertions(g, facets, tr)
         mset = ("mean",) if "numarr" in template else g.pick(
             [(), ("mean",), ("mean", "stddev"), ("mean", "stddev")])
         if facets[-1][0] == "mr" and len(facets) == 2 and "numarr" not in template and \
@@ -216,8 +277,34 @@ def _responses(case):
         out += [filtercols._response(case["labels"], case["ans"], k, True, True, wts)[0]
                 for k in case["filters"]]
         return json.loads(json.dumps(out))
-    return [json.loads(json.dumps(sim.build_response(sim.spec_from_dict(d))))
-            for d in case["specs"]]
+    out = [json.loads(json.dumps(sim.build_response(sim.spec_from_dict(d))))
+           for d in case["specs"]]
+    if case["mode"] == "cube":
+        alt = _alt_response(case)
+        if alt is not None:
+            out.append(alt)
+    return out
+
+
+def _alt_response(case):
+    """Another survey analysed with the *same* transforms object: the same query in which some
+    valid categories of the rows variable are flagged missing (a shorter scale), so that some
+    of the insertions / element references of the shared transforms do not apply to it."""
+    spec = sim.spec_from_dict(json.loads(json.dumps(case["specs"][0])))
+    lf = cases.library_order_facets(spec.facets)
+    role, var = lf[0] if len(lf) == 1 else lf[-2]
+    if role != "cat" or getattr(var, "kind", "") not in ("cat", "cat_date"):
+        return None
+    valid = [k for k, c in enumerate(var.cats) if not c.get("missing")]
+    if len(valid) < 2:
+        return None
+    r = random.Random(str(case["hseed"]) + "/alt")
+    for k in r.sample(valid, r.randint(1, len(valid) - 1)):
+        var.cats[k]["missing"] = True
+    try:
+        return json.loads(json.dumps(sim.build_response(spec)))
+    except Exception:
+        return None
 
 
 def _build(case, responses, trs, form="dict", which=None):
@@ -233,7 +320,8 @@ def _build(case, responses, trs, form="dict", which=None):
             resp = json.dumps(resp)
         elif form == "envelope":
             resp = {"element": "shoji:view", "value": resp}
-        return Cube(resp, transforms=trs[which], population=case["population"], mask_size=3)
+        return Cube(resp, transforms=trs[min(which, len(trs) - 1)],
+                    population=case["population"], mask_size=3)
     if case["mode"] in ("cube", "fixture"):
         resp = responses[0]
         if form == "json":
@@ -318,6 +406,18 @@ def _read_entry(case, obj, parts, entry):
 
 def check_case(case):
     res = CaseResult()
+    _contract["violations"] = []
+    evals_before = _contract["evals"]
+    try:
+        return _check_case(case, res)
+    finally:
+        res.monitors["contract_dimension_dict_prepared"] += _contract["evals"] - evals_before
+        for v in _contract["violations"]:
+            res.check("contract_dimension_dict_prepared", False,
+                      "contract/shimmed_dimension_dict", v)
+
+
+def _check_case(case, res):
     res.classes.append("mode=%s" % case["mode"])
     base_resp = _responses(case)
     base_trs = case["transforms_list"]
@@ -333,11 +433,15 @@ def check_case(case):
         res.check("history_read", False, "exception/partitions", {"exc": repr(e)})
         return res
     entries = _entries(case, probe_parts)
-    if case["mode"].startswith("cubeset"):
+    if case["mode"] == "cube" and len(base_resp) > 1:
+        res.classes.append("same_transforms_other_survey")
+    if case["mode"].startswith("cubeset") or (case["mode"] == "cube" and len(base_resp) > 1):
         # the single tables of the multi-table, analysed on their own from the same argument
-        # objects (and the same JSON text): entries carry the index of their response
-        res.classes.append("set_and_single_cubes")
-        for j_ in range(len(base_resp)):
+        # objects (and the same JSON text): entries carry the index of their response; for a
+        # single cube: another survey (index 1) analysed with the same transforms object
+        if case["mode"].startswith("cubeset"):
+            res.classes.append("set_and_single_cubes")
+        for j_ in range(1 if case["mode"] == "cube" else 0, len(base_resp)):
             try:
                 single = _build(case, copy.deepcopy(base_resp), copy.deepcopy(base_trs),
                                 which=j_)
@@ -492,7 +596,10 @@ def _thread_stress(res, case, base_resp, base_trs, entries, pristine_known, r):
 
                 def on_line(code, line):
                     if code.co_filename in files:
-                        if rr.random() < 0.2:
+                        u = rr.random()
+                        if u < 0.012:
+                            time.sleep(0.006)  # hold this thread: the others run far ahead
+                        elif u < 0.2:
                             time.sleep(0)
                         return None
                     return mon.DISABLE
@@ -509,16 +616,32 @@ def _thread_stress(res, case, base_resp, base_trs, entries, pristine_known, r):
         chunks = [order[k:k + size] for k in range(0, len(order), size)]  # every entry once
         for rnd_no in range(len(chunks)):
             shared = _build(case, copy.deepcopy(base_resp), copy.deepcopy(base_trs))
-            try:
-                parts = _partitions(case, shared)
-            except Exception:
-                return
             few = chunks[rnd_no % len(chunks)]
             barrier = threading.Barrier(n_threads)
 
-            def worker(seed, shared=shared, parts=parts, few=few, barrier=barrier):
-                # all threads take the entries in the same order and meet before each one:
+            def worker(seed, shared=shared, few=few, barrier=barrier):
+                # the threads also obtain the partitions themselves, at the same time (the
+                # dimensions are prepared on first use, in dicts shared by all partitions);
+                # then all take the entries in the same order and meet before each one:
                 # every property is first read by all of them at once
+                try:
+                    barrier.wait(20)
+                except threading.BrokenBarrierError:
+                    pass
+                try:
+                    _partitions(case, shared)
+                except Exception as ex:
+                    with lock:
+                        results.append((few[0], ("raise-in-partitions", type(ex).__name__)))
+                try:
+                    barrier.wait(20)
+                except threading.BrokenBarrierError:
+                    pass
+                try:
+                    # whichever thread stored last, everybody now sees the same partitions
+                    parts = _partitions(case, shared)
+                except Exception:
+                    return
                 for e in few:
                     try:
                         barrier.wait(20)
